@@ -302,6 +302,10 @@ fn run_history<C: SimColor>(sc: &Scenario, opts: &Opts) -> RunOut {
         out.probes |= probe("parent_box_empty");
     }
 
+    crate::erased::set_fold_mode(matches!(
+        sc.dev.disc(),
+        crate::dev::Discipline::DrainBounded | crate::dev::Discipline::SkipHidden
+    ));
     let mut prev_stack: Option<&Vec<Ad>> = None;
     for (si, step) in sc.steps.iter().enumerate() {
         let m = StackModel::new(dev_r, sc.dev_kind, &step.stack);
@@ -473,6 +477,7 @@ fn run_history<C: SimColor>(sc: &Scenario, opts: &Opts) -> RunOut {
             break;
         }
     }
+    crate::erased::set_fold_mode(false);
     if everything_inside {
         out.probes |= probe("device_box_contains_everything");
     }
